@@ -26,9 +26,10 @@ ItemVis == {"", "pub", "pub(crate)"}
 Locs == {"same", "child", "sibling", "parent", "cousin", "other-crate"}
 \* via: the name the probe uses: "name" = the user-visible name D::T; "inmod" (module inputs only) = the trait itself, D::m::T -
 \* probed only from locations that can name the module m at all, so that the verdict is about the trait
+\*      "deleg" (trait inputs with `delegate_by = DelegateTr` only) = the generated delegation trait D::DelegateTr
 \* exp: the invocation also exports its mocks (`export` option / the entrait_export macro) - that must not touch the visibility
-Inputs0 == { i \in [mode : Modes, vis : UNION { VisFor(m) : m \in Modes }, itemvis : ItemVis, loc : Locs, via : {"name", "inmod"}, exp : {"no", "option", "macro"}] :
-             i.vis \in VisFor(i.mode) /\ (i.via = "inmod" => i.mode = "mod") /\ (i.exp # "no" => i.mode \in {"fn", "mod"} /\ i.vis \in {"", "pub(crate)"}) }
+Inputs0 == { i \in [mode : Modes, vis : UNION { VisFor(m) : m \in Modes }, itemvis : ItemVis, loc : Locs, via : {"name", "inmod", "deleg"}, exp : {"no", "option", "macro"}] :
+             i.vis \in VisFor(i.mode) /\ (i.via = "inmod" => i.mode = "mod") /\ (i.via = "deleg" => i.mode = "trait") /\ (i.exp # "no" => i.mode \in {"fn", "mod"} /\ i.vis \in {"", "pub(crate)"}) }
 
 P == <<"cases", "p">>
 D == P \o <<"d">>
@@ -43,12 +44,15 @@ Emitted(i) ==
                               \* relative visibilities are shifted one level (since a "fix:" commit)
                               vis |-> CASE i.vis = "" -> "pub(super)" [] i.vis = "pub(super)" -> "pub(in super::super)" [] OTHER -> i.vis],
                              [name |-> "T", def |-> D, vis |-> i.vis] }          \* `vis use m::T;`
-    [] i.mode = "trait" -> { [name |-> "T", def |-> D, vis |-> i.vis] }          \* TrImpl: trait_copy.vis = the trait's visibility
+    [] i.mode = "trait" -> { [name |-> "T", def |-> D, vis |-> i.vis],           \* TrImpl: trait_copy.vis = the trait's visibility
+                             \* the third trait of `delegate_by = DelegateTr` (`trait DelegateTr<T> { type Target: TrImpl<T>; }`)
+                             \* goes with the other two (since a "fix:" commit; it used to be `pub` whatever the trait's visibility)
+                             [name |-> "Deleg", def |-> D, vis |-> i.vis] }
 \* naming D::T from a location: the item (or re-export) called T in D must be accessible; a re-export additionally needs its
 \* target to be nameable from D itself (it always is: pub(super) of D::m is D)
 Inputs == { i \in Inputs0 : i.via = "inmod" => R!Accessible(i.itemvis, D, FromPath(i.loc), SameCrate(i.loc)) }
 PredAccessible(i) ==
-  LET t == CHOOSE x \in Emitted(i) : x.name = (IF i.via = "inmod" THEN "m::T" ELSE "T") IN R!Accessible(t.vis, t.def, FromPath(i.loc), SameCrate(i.loc))
+  LET t == CHOOSE x \in Emitted(i) : x.name = (IF i.via = "inmod" THEN "m::T" ELSE IF i.via = "deleg" THEN "Deleg" ELSE "T") IN R!Accessible(t.vis, t.def, FromPath(i.loc), SameCrate(i.loc))
 L1In(i) == [vis |-> i.vis, def |-> D, from |-> FromPath(i.loc), samecrate |-> SameCrate(i.loc)]
 
 VARIABLES i, pc, items
